@@ -35,6 +35,11 @@ TestReporter *get_test_reporter(void) {
 
 void setup_reporting(TestReporter *reporter) {
     reporter->ipc = start_cgreen_messaging(45);
+    if (reporter->ipc < 0) {
+        /* without the channel no result can be obtained: do not run anything */
+        fprintf(stderr, "could not set up the channel for test results\n");
+        exit(EXIT_FAILURE);
+    }
     context.reporter = reporter;
 }
 
